@@ -1,0 +1,32 @@
+//! Verification hook, compiled only with `--cfg pyxis_verif`.
+//!
+//! Lets a test harness choose the order in which the unresolved-type worklist is
+//! visited, so that resolution schedules can be enumerated instead of depending on
+//! hash-map iteration order. Without a schedule installed nothing changes.
+
+use std::cell::RefCell;
+
+use crate::grammar::ItemPath;
+
+/// Receives the unresolved paths in sorted order and permutes them in place.
+/// Must be a pure function of the paths it is given.
+pub type Schedule = Box<dyn Fn(&mut Vec<ItemPath>)>;
+
+thread_local! {
+    static SCHEDULE: RefCell<Option<Schedule>> = const { RefCell::new(None) };
+}
+
+/// Install (or clear) the schedule for builds running on the current thread.
+pub fn set_schedule(schedule: Option<Schedule>) {
+    SCHEDULE.with(|s| *s.borrow_mut() = schedule);
+}
+
+pub(crate) fn reorder(sorted_paths: impl FnOnce() -> Vec<ItemPath>) -> Option<Vec<ItemPath>> {
+    SCHEDULE.with(|s| {
+        s.borrow().as_ref().map(|schedule| {
+            let mut paths = sorted_paths();
+            schedule(&mut paths);
+            paths
+        })
+    })
+}
